@@ -257,11 +257,11 @@ def entryoff_key(seed: bytes) -> bytes:
 
 
 def main(tier, seed, replay=None):
-    want = None
+    replay_cell = None
     if replay:
         # re-run only the cell of a recorded violation: --replay <replay dir>
         w = json.loads((Path(replay) / "witness.json").read_text())["witness"]
-        want = ("seeded" if w["seeded"] else "unseeded", w["input"])
+        replay_cell = ("seeded" if w["seeded"] else "unseeded", w["input"])
         if w["input"] in ("garblever", "platform", "gover", "cachestate"):
             tier = "thorough"
     chk = Check("C12", tier, seed)
@@ -303,8 +303,8 @@ def main(tier, seed, replay=None):
         "tiny": (["-tiny"], {}),
         "gogarble": ([], {"GOGARBLE": MOD}),
     }
-    if want and want[1] in flagsets:
-        picks = {"U": [want[1]], "S": [want[1]]}
+    if replay_cell and replay_cell[1] in flagsets:
+        picks = {"U": [replay_cell[1]], "S": [replay_cell[1]]}
     elif tier == "quick":
         picks = {"U": [rng.choice(sorted(flagsets))], "S": [rng.choice(sorted(flagsets))]}
     else:
@@ -362,14 +362,14 @@ def main(tier, seed, replay=None):
         if not FALLBACK_TOOLCHAIN.exists():
             raise Inconclusive(f"the second Go toolchain {FALLBACK_TOOLCHAIN} is missing")
 
-    if want:
+    if replay_cell:
         def views_of(inp):
             return {"editSame", "editOther", "editDep"} if inp.startswith("edit:") else {inp}
-        pairs = [p for p in pairs if p[0] == want[0] and want[1] in views_of(p[1])]
+        pairs = [p for p in pairs if p[0] == replay_cell[0] and replay_cell[1] in views_of(p[1])]
         needed = {n for p in pairs for n in p[2:4]}
         chains = {cn: st for cn, st in chains.items() if any(s.get("name") in needed for s in st)}
         if not pairs:
-            raise Inconclusive(f"nothing to replay for {want}")
+            raise Inconclusive(f"nothing to replay for {replay_cell}")
     leader = "U" if "U" in chains else sorted(chains)[0]
 
     # ---- 3. real builds: the unseeded base chain first (it also builds the patched linker), the rest in parallel
@@ -536,7 +536,7 @@ def main(tier, seed, replay=None):
                 if ka in da and kb in db:
                     o = "same" if ka == kb else ("changes" if (ka not in db and kb not in da) else None)
                     add(mode, pin, "entryoff", o, 1, dict(a=ka.hex(), b=kb.hex()), pair)
-                else:
+                elif inp != "platform":
                     chk.extra.setdefault("entryoff_key_not_found", []).append(pair)
 
     mismatches = []
@@ -565,15 +565,18 @@ def main(tier, seed, replay=None):
     seen_spec = [k for k in specified if (k[0], k[2], k[1]) in cells]
     chk.extra["specified_cells"] = len(specified)
     chk.extra["specified_cells_observed"] = len(seen_spec)
-    chk.extra["specified_cells_unobserved"] = sorted(f"{m}/{i}/{c}" for (m, c, i) in set(specified) - set(seen_spec))
+    # the key bytes cannot be located in an arm64 instruction stream (split over MOVZ/MOVK immediates)
+    unobservable = {("seeded", "entryoff", "platform")}
+    chk.extra["specified_cells_unobserved"] = sorted(f"{m}/{i}/{c}" for (m, c, i) in set(specified) - set(seen_spec) - unobservable)
+    chk.extra["specified_cells_unobservable"] = sorted(f"{m}/{i}/{c}" for (m, c, i) in unobservable)
     if mismatches:
         print(f"MODEL-MISMATCH: property=C12 {len(mismatches)} cells where the real builds differ from Dep of Salts.tla "
               f"while the property's text holds: {mismatches[:6]}", flush=True)
         chk.extra["model_mismatch_cells"] = mismatches
     if not table:
         raise Inconclusive("no cell was observed")
-    chk.exhaustive = tier == "thorough" and not want and not chk.extra["specified_cells_unobserved"]
-    return chk.finish()
+    chk.exhaustive = tier == "thorough" and not replay_cell and not chk.extra["specified_cells_unobserved"]
+    return finish_replay(chk) if replay_cell else chk.finish()
 
 
 if __name__ == "__main__":
